@@ -212,8 +212,15 @@ def tolerance_job(args):
     moved = case.startswith('moved-')          # the second wire is entered one metre away and put in place by translate() before the model is built
     Cpt = (3.1, 0.2, 4.4)
     n3 = 2
-    bound = {'near': 3e-4, 'far': 3e-3}[case.replace('chain-', '').replace('moved-', '')]
+    bound = {'near': 3e-4, 'far': 3e-3}.get(case.replace('chain-', '').replace('moved-', ''), 0.0)
     off = 1.0 if moved else 0.0
+    taper = case.startswith('taper-')          # wire 1 is tapered towards its SECOND end (the junction candidate): its shortest segment is its last
+    if taper:
+        bound = {'taper-near': 1.5e-4, 'taper-far': 1.5e-3}[case]
+        wt = mm.Wire(n1, *A, *J, 0.002)
+        wt.segtype = 2
+        wt.compute_segments()
+        msl = min(float(sg.seg_len) for sg in wt.segments)          # from the segments themselves, not from the bookkeeping of the wire
 
     def fn():
         c = symx.ctx()
@@ -222,6 +229,8 @@ def tolerance_job(args):
             c.assume(z3.And(x.n >= core.RV(-bound), x.n <= core.RV(bound)))
         with symx.object_arrays():
             w1 = M.Wire(n1, *A, *J, 0.002)
+            if taper:
+                w1.segtype = 2
             w2 = M.Wire(n2, J[0] + d[0] + off, J[1] + d[1] + off, J[2] + d[2] + off, B[0] + off, B[1] + off, B[2] + off, 0.002)
             if moved:
                 w2.translate(np.array([-off, -off, -off]))
@@ -319,10 +328,21 @@ def tolerance_job(args):
                 if abs(gap - 1e-3 * msl) > 1e-9 and len(mr.pulses) != want:
                     v = ('C12:tolerance:moved', 'a wire moved into place by translate(): its end is %.3g m from the end of the other wire (tolerance %.3g m), the model has %d pulses, the topology formula gives %d'
                          % (gap, 1e-3 * msl, len(mr.pulses), want), dict(kind='tolerance-moved', delta=dc))
+            elif taper:
+                w1r = mm.Wire(n1, *A, *J, 0.002)
+                w1r.segtype = 2
+                w2r = mm.Wire(n2, J[0] + dc[0], J[1] + dc[1], J[2] + dc[2], *B, 0.002)
+                mr = mm.Mininec(29.98, [w1r, w2r])
+                gap = float(np.linalg.norm(np.asarray(dc)))
+                want = (n1 - 1) + (n2 - 1) + (1 if gap <= 1e-3 * msl else 0)
+                v = None
+                if abs(gap - 1e-3 * msl) > 1e-9 * msl and len(mr.pulses) != want:
+                    v = ('C12:tolerance:tapered', 'wire 1 tapered towards the junction end (shortest segment %.4g m, tolerance %.3g m): an end %.3g m away is %s; the model has %d pulses, the topology formula gives %d'
+                         % (msl, 1e-3 * msl, gap, 'joined' if len(mr.pulses) > want else 'not joined', len(mr.pulses), want), dict(kind='tolerance-tapered', delta=dc))
             else:
                 v = replay_count(mm, 3 if chain else 2, (n1, n2, n3) if chain else (n1, n2), False, pts)
             if v:
-                v = ('C12:tolerance' + (':moved' if moved else ''), v[1], v[2])
+                v = ('C12:tolerance' + (':moved' if moved else ':tapered' if taper else ''), v[1], v[2])
                 res['violations'].append(v)
                 res['obls'].append((on, 'violation', v[1]))
             else:
@@ -428,7 +448,7 @@ def main(args):
     if ck.tier == 'thorough':
         for fixed in range(16):
             jobs.append((4, (1, 2, 1, 1), False, qt, fixed))
-    tjobs = [('near', qt), ('far', qt), ('chain-near', qt), ('chain-far', qt), ('moved-near', qt), ('moved-far', qt)]
+    tjobs = [('near', qt), ('far', qt), ('chain-near', qt), ('chain-far', qt), ('moved-near', qt), ('moved-far', qt), ('taper-near', qt), ('taper-far', qt)]
     # every job has a share of one hard wall budget: a job that is still running at the deadline is killed and counted as ONE inconclusive
     # obligation, never as a pass (a change to the code can turn the linear queries of a job into nonlinear ones that do not finish)
     budget = 480 if ck.tier == 'quick' else 7200
